@@ -27,7 +27,7 @@ type bbKey struct {
 type bbBallotDesc struct {
 	Height  int64
 	Round   uint64
-	Kind    string // init, initX (conflicting fact), initExpel, sc, accept, acceptX, acceptExpel
+	Kind    string // init, initX (conflicting fact), initExpel, sc, scX (conflicting suffrage-confirm fact), accept, acceptX, acceptExpel
 	Node    int    // signer index; n = foreign node
 	ExpelBy string // full, one, foreign, expired (who signed the expel operation carried by the ballot)
 	Key     string // "", "wrongkey": node address signed with the foreign node's key
@@ -35,7 +35,7 @@ type bbBallotDesc struct {
 
 func (d bbBallotDesc) String() string {
 	return fmt.Sprintf("%s@(%d,%d) by n%02d%s%s", d.Kind, d.Height, d.Round, d.Node,
-		map[bool]string{true: " expel=" + d.ExpelBy, false: ""}[strings.Contains(d.Kind, "Expel") || d.Kind == "sc"],
+		map[bool]string{true: " expel=" + d.ExpelBy, false: ""}[strings.Contains(d.Kind, "Expel") || strings.HasPrefix(d.Kind, "sc")],
 		map[bool]string{true: " WRONGKEY", false: ""}[d.Key != ""])
 }
 
@@ -164,10 +164,14 @@ func (w *bbWorld) initVP(h int64, r uint64) base.INITVoteproof {
 	return gen.FullINITVoteproof(w.initFact(h, r, 0, nil), w.locals[:w.n], w.th, nil)
 }
 
-func (w *bbWorld) initExpelVP(h int64, r uint64) base.INITVoteproof {
+func (w *bbWorld) initExpelVP(h int64, r uint64) base.INITVoteproof { return w.initExpelVPv(h, r, 0) }
+
+// initExpelVPv: v=1 is a second, different majority (another proposal) for the same point - what a conflicting suffrage-confirm
+// ballot refers to.
+func (w *bbWorld) initExpelVPv(h int64, r uint64, v int) base.INITVoteproof {
 	ex := w.expels(h, "full")
 
-	return gen.FullINITVoteproof(w.initFact(h, r, 0, gen.ExpelFactHashes(ex)), w.live(), w.th, ex)
+	return gen.FullINITVoteproof(w.initFact(h, r, v, gen.ExpelFactHashes(ex)), w.live(), w.th, ex)
 }
 
 // build makes the ballot described by d; ok=false when the descriptor is not constructible for this world.
@@ -180,7 +184,7 @@ func (w *bbWorld) build(d bbBallotDesc) (bl base.Ballot, ok bool) {
 		signer = w.locals[w.n]
 	}
 
-	needExpel := strings.Contains(d.Kind, "Expel") || d.Kind == "sc"
+	needExpel := strings.Contains(d.Kind, "Expel") || strings.HasPrefix(d.Kind, "sc")
 	if needExpel && w.n < 3 {
 		return nil, false
 	}
@@ -234,11 +238,16 @@ func (w *bbWorld) build(d bbBallotDesc) (bl base.Ballot, ok bool) {
 		ex := w.expels(d.Height, d.ExpelBy)
 
 		return isaac.NewINITBallot(prevVP, signINIT(w.initFact(d.Height, d.Round, 0, gen.ExpelFactHashes(ex))), ex), true
-	case "sc":
-		vp := w.initExpelVP(d.Height, d.Round)
+	case "sc", "scX":
+		v := 0
+		if d.Kind == "scX" {
+			v = 1
+		}
+
+		vp := w.initExpelVPv(d.Height, d.Round, v)
 		ex := w.expels(d.Height, "full")
 		f := isaac.NewSuffrageConfirmBallotFact(bbPoint(d.Height, d.Round), bbBlock(d.Height-1),
-			gen.H(fmt.Sprintf("prop-%d-%d-0", d.Height, d.Round)), gen.ExpelFactHashes(ex))
+			gen.H(fmt.Sprintf("prop-%d-%d-%d", d.Height, d.Round, v)), gen.ExpelFactHashes(ex))
 
 		return isaac.NewINITBallot(vp, signINIT(f), nil), true
 	case "accept", "acceptX":
@@ -321,7 +330,7 @@ func (w *bbWorld) vote(d bbBallotDesc) (built bool, voted bool, err error) {
 
 	w.history = append(w.history, "vote "+d.String())
 
-	if strings.Contains(d.Kind, "Expel") || d.Kind == "sc" {
+	if strings.Contains(d.Kind, "Expel") || strings.HasPrefix(d.Kind, "sc") {
 		w.hadExpel = true
 	}
 
@@ -381,8 +390,8 @@ func (w *bbWorld) drain() []base.Voteproof {
 }
 
 var (
-	bbKindsC04 = []string{"init", "init", "init", "initX", "initExpel", "initExpel", "sc", "sc", "accept", "accept", "acceptX", "acceptExpel"}
-	bbKindsC05 = []string{"init", "init", "sc", "sc", "sc", "initExpel", "accept", "accept", "acceptExpel", "initX"}
+	bbKindsC04 = []string{"init", "init", "init", "initX", "initExpel", "initExpel", "sc", "sc", "scX", "accept", "accept", "acceptX", "acceptExpel"}
+	bbKindsC05 = []string{"init", "init", "sc", "sc", "sc", "scX", "initExpel", "accept", "accept", "acceptExpel", "initX"}
 )
 
 func genBBDesc(w *bbWorld) *rapid.Generator[bbBallotDesc] {
